@@ -336,7 +336,10 @@ def gen_value(rng):
         return rng.choice(LNAMES)
     if r < 0.8:
         return rng.choice(WEIRD)
-    return rng.randint(-20, 2000) if rng.random() < 0.9 else rng.choice([10 ** 20, -10 ** 19])
+    v = rng.randint(-20, 2000) if rng.random() < 0.9 else rng.choice([10 ** 20, -10 ** 19])
+    # one numeric value in seven is 0: a falsy level value is a legitimate one (seeded change
+    # C20-csv-falsy-level-blank wrote it as an empty cell); same number of PRNG draws as before
+    return 0 if v % 7 == 0 else v
 
 
 def gen_rect_exps(rng, names, hidden_ok=True):
